@@ -5,6 +5,9 @@ import (
 	"fmt"
 	"os"
 	"regexp"
+	"strings"
+
+	"github.com/relex/slog-agent/defs"
 )
 
 // recordMenu is the fixed set of syslog records pushed through every accepted configuration: the development inputs
@@ -68,5 +71,34 @@ func loadRecordMenu() error {
 		return fmt.Errorf("only %d records found under %s", len(recordMenu), testdataDir)
 	}
 	recordMenu = append(recordMenu, syntheticRecords...)
+	buildBigRecords()
+	recordMenu = append(recordMenu, bigRecords[0])
 	return nil
+}
+
+// bigRecords: records at the documented input limit (defs.InputLogMaxMessageBytes for the message, as lowered by setup).
+// [0] is part of every menu: a message of exactly the limit (class label, request line, e-mail address, plain words).
+// [1:] (bases, valid side and the amplification group only): a limit-size message made of escape sequences, quotes,
+// control characters and non-ASCII text; a message above the limit (cut by the parser).
+var bigRecords []string
+
+const bigHeader = `<14>1 2020-09-17T16:51:47.867Z somehost someapp/v.example.com 1234 file.log:00ff - `
+
+func fillTo(prefix, unit string, n int) string {
+	var b strings.Builder
+	b.Grow(n + len(unit))
+	b.WriteString(prefix)
+	for b.Len() < n {
+		b.WriteString(unit)
+	}
+	return b.String()[:n]
+}
+
+func buildBigRecords() {
+	limit := defs.InputLogMaxMessageBytes
+	bigRecords = []string{
+		bigHeader + fillTo(`[BigClass] - POST "/big", status=200 user=first.last@example.com params=`, "0123456789abcdef ghij ", limit),
+		bigHeader + fillTo("", "\\n\\t\"quoted\" \\\\ back\\b \x01\x7f d\u00e4t\u00e4 ", limit),
+		bigHeader + fillTo("[Over] - ", "over the limit ", limit+1000),
+	}
 }
